@@ -411,8 +411,35 @@ func runC06(c *core.Ctx) {
 			// stores recycled as the documentation of DecodeDDSketch suggests: an earlier decode of the same
 			// stream, queried, its stores cleared and handed out again by the provider
 			rc := &mon.Recycler{Spec: target}
+			earlier := stream
+			if r.Bool() {
+				// ... or of the same sketches with every value moved a few bins away: as many bins, other extremes
+				shift := math.Exp(float64(r.Range(3, 40)*(1-2*r.Intn(2))) * m.LnG)
+				var es []byte
+				okShift := true
+				c.Guard("Encode (shifted earlier life)", func() {
+					for i, p := range parts {
+						q := mon.NewSketch(exact, m.M, p.spec)
+						for _, it := range p.mdl.Items {
+							v := it.V * shift
+							if a := math.Abs(v); a != 0 && (a < m.Min*4 || a > m.Max/4) {
+								okShift = false
+								return
+							}
+							if it.W > 0 {
+								q.I().AddWithCount(v, it.W)
+							}
+						}
+						q.I().Encode(&es, i > 0)
+					}
+				})
+				if okShift && !c.Failed() && len(es) > 0 && !target.Collapsing() && target.Kind != gen.SDense {
+					earlier = es
+					c.Count("decode.into_recycled_stores.other_extremes_before", 1)
+				}
+			}
 			if c.Guard("Decode (earlier life)", func() {
-				d0, e0 := mon.DecodeWith(exact, stream, rc.Provider(), supplied)
+				d0, e0 := mon.DecodeWith(exact, earlier, rc.Provider(), supplied)
 				if e0 == nil {
 					if r.P(0.8) {
 						mon.Observe(d0, nil)
